@@ -495,6 +495,62 @@ def main():
     out.append("Definition gen_timeout_delay (timeout warp : Q) : Q :=\n  "
                + qexpr(later[0].args[0], {"options.timeout": "timeout", "options.warp": "warp"}) + "%Q.\n")
 
+    # ---- the exit status of vncdo (command.VNCDoCLIFactory): which status each reactor event leaves behind
+    cls = next((n for n in command.body if isinstance(n, ast.ClassDef) and n.name == "VNCDoCLIFactory"), None)
+    if cls is None:
+        raise GenError("VNCDoCLIFactory not found")
+    meths = {m_.name: m_ for m_ in cls.body if isinstance(m_, ast.FunctionDef)}
+    for need_ in ("clientConnectionLost", "clientConnectionFailed", "error", "done"):
+        if need_ not in meths:
+            raise GenError("VNCDoCLIFactory." + need_ + " not found")
+
+    def status_cond(e):
+        if isinstance(e, ast.BoolOp) and isinstance(e.op, ast.And):
+            return "(" + " && ".join(status_cond(v) for v in e.values) + ")"
+        t = ast.unparse(e)
+        if t == "reason.type == ConnectionDone":
+            return "clean"
+        if t == "self.completed":
+            return "completed"
+        raise GenError("unsupported condition in the exit-status code: " + t)
+
+    def status_of(name, depth=0):
+        if depth > 4:
+            raise GenError("exit-status code recurses")
+        body = [s_ for s_ in meths[name].body if not is_log_call(s_) and not (isinstance(s_, ast.Expr) and isinstance(s_.value, ast.Constant))]
+
+        def stmts(b):
+            if len(b) != 1:
+                raise GenError(f"VNCDoCLIFactory.{name}: expected one decision, found {len(b)} statements")
+            st = b[0]
+            if isinstance(st, ast.If):
+                return f"(if {status_cond(st.test)} then {stmts(st.body)} else {stmts(st.orelse)})"
+            if isinstance(st, ast.Expr) and isinstance(st.value, ast.Call) and isinstance(st.value.func, ast.Attribute) \
+                    and isinstance(st.value.func.value, ast.Name) and st.value.func.value.id == "self":
+                callee = st.value.func.attr
+                if callee == "done":
+                    if len(st.value.args) != 1 or not (isinstance(st.value.args[0], ast.Constant) and isinstance(st.value.args[0].value, int)):
+                        raise GenError(f"VNCDoCLIFactory.{name}: done() is not called with an integer constant")
+                    return str(st.value.args[0].value)
+                if callee in meths:
+                    return status_of(callee, depth + 1)
+            raise GenError(f"VNCDoCLIFactory.{name}: unsupported statement {ast.unparse(st)[:60]}")
+        return stmts(body)
+    out.append("Definition gen_status_lost (clean completed : bool) : Z :=\n  " + status_of("clientConnectionLost") + ".\n")
+    out.append("Definition gen_status_failed : Z := " + status_of("clientConnectionFailed") + ".\n")
+    out.append("Definition gen_status_error : Z := " + status_of("error") + ".\n")
+    dn = [ast.unparse(s_) for s_ in meths["done"].body if not (isinstance(s_, ast.Expr) and isinstance(s_.value, ast.Constant))]
+    if len(dn) != 2 or dn[0] != "reactor.exit_status = exit_code" or not dn[1].startswith("reactor.callLater(") or not dn[1].endswith(", reactor.stop)"):
+        raise GenError("VNCDoCLIFactory.done is no longer `exit_status = exit_code; callLater(<delay>, reactor.stop)`: " + "; ".join(dn))
+    fn = function(command, "build_tool")
+    init = [n_ for n_ in ast.walk(fn) if isinstance(n_, ast.Assign) and ast.unparse(n_.targets[0]) == "reactor.exit_status"]
+    if len(init) != 1 or not (isinstance(init[0].value, ast.Constant) and isinstance(init[0].value.value, int)):
+        raise GenError("build_tool no longer sets reactor.exit_status to a constant")
+    out.append(f"Definition gen_status_initial : Z := {init[0].value.value}.\n")
+    cc = next((n_ for n_ in ast.walk(fn) if isinstance(n_, ast.FunctionDef) and n_.name == "close_connection"), None)
+    if cc is None or [ast.unparse(s_) for s_ in cc.body] != ["factory.completed = True", "client.transport.loseConnection()"]:
+        raise GenError("build_tool.close_connection is no longer `factory.completed = True; client.transport.loseConnection()`")
+
     new = "\n".join(out)
     os.makedirs(os.path.dirname(OUT), exist_ok=True)
     if not os.path.exists(OUT) or open(OUT).read() != new:
